@@ -32,7 +32,15 @@ type schedRun struct {
 	exec   Exec
 }
 
+// SiteFilter, when set, restricts exploration to the map-range sites it accepts;
+// all other sites iterate in canonical order and are not choice points (a sound
+// under-approximation of the schedule space, stated in the evidence of the check using it).
+var SiteFilter func(site string) bool
+
 func (s *schedRun) choose(site string, n int) int {
+	if SiteFilter != nil && !SiteFilter(site) {
+		return 0
+	}
 	c := 0
 	i := len(s.exec.Choices)
 	if i < len(s.prefix) {
